@@ -59,6 +59,14 @@ def _run_chunk(args):
         if o.get("exc") == "InvalidSyntaxException" and not stmt_drv.accepts(sql, dia):
             out.append({"skip": "parser rejects"})      # the parser itself rejects the text: outside the quantifier
             continue
+        if j.get("opts", {}).get("cte") == "aliased":
+            # projection: a candidate that is a CTE read through an alias is reported under the CTE's own (generated) name; the
+            # specification knows the relation by the name it is exposed under
+            own = {"zc%d" % (i + 1): r["al"] for i, r in enumerate(p["rels"])}
+            if p["branch2"]:
+                own["zc9"] = p["branch2"][0].get("al", "none")
+            for x in o["flow"]:
+                x["cands"] = sorted(own.get(c, c) for c in x["cands"])
         sp = j.get("opts", {}).get("spell")
         if sp:
             # projection: a statement-local name is reported as written (less its quotes); the specification knows it by
@@ -125,8 +133,12 @@ def prog_features(p):
 
 def opt_features(o):
     f = set()
-    if o.get("cte"):
+    if o.get("cte") == "aliased":
+        f.add("written:derived_tables_as_ctes_read_through_an_alias")
+    elif o.get("cte"):
         f.add("written:derived_tables_as_ctes_read_without_alias")
+    if o.get("tablesample"):
+        f.add("written:tablesample_after_the_alias")
     if o.get("spell"):
         f.add("written:quoted_aliases")
     if o.get("inner_join") is not None:
